@@ -347,7 +347,17 @@ def run(rep):
             rcases.append(readcore.read_case(arc[:cut], source=(0,), rplan=[], consume=(0, 4096, 0)))
             meta.append((name, "cut@%d" % cut, 0, (0, 4096, 0)))
     t0 = time.time()
-    lines = run_resilient(rep, readall, rcases, meta, per_batch_timeout=600 if quick else 3000)
+    if quick:
+        lines = run_resilient(rep, readall, rcases, meta, per_batch_timeout=600)
+    else:
+        # the thorough tier is a few hundred megabytes of cases: shards in parallel; a shard that runs out of time
+        # re-runs the case it was on alone before blaming it
+        lines, failures = readcore.run_readall_sharded(readall, rcases, shards=64, workers=14, timeout=2400, single_timeout=300)
+        for bad, rc, err in failures[:8]:
+            rep.violation("C01:crash:%s:%s" % (meta[bad][0].split(":")[0] if ":" in meta[bad][0] else "ref", vlib.crash_key(err)),
+                          "reader stopped (rc=%s, %s) on %s mutation %s" % (rc, vlib.crash_key(err), meta[bad][0], meta[bad][1]),
+                          dict(case=rcases[bad][:200000], archive=meta[bad][0], mutation=meta[bad][1], stderr=err[-3000:],
+                               cmd="harness readAll (asan) on the case line"), found_input=True)
     flagged = 0
     for (name, what, sz, cons), c, l in zip(meta, rcases, lines):
         if l is None:
